@@ -324,11 +324,11 @@ def _helpers(repo, rel, clsname, target, enumname, enums):
             if not ok:
                 gap(f"{where}: unexpected constructor body")
             continue
-        deprecated = False
+        deprecated, dep_msg = False, None
         for d in f.decorator_list:
             if isinstance(d, ast.Call) and isinstance(d.func, ast.Name) and d.func.id == "deprecated" and len(d.args) == 1 \
                     and isinstance(d.args[0], ast.Constant) and isinstance(d.args[0].value, str) and not d.keywords:
-                deprecated = True
+                deprecated, dep_msg = True, d.args[0].value
             else:
                 gap(f"{where}: decorator {ast.unparse(d)!r}")
         params, _, _ = _params(f, where, need_none_defaults=True)
@@ -355,7 +355,7 @@ def _helpers(repo, rel, clsname, target, enumname, enums):
             if not isinstance(kw.value, ast.Name):
                 gap(f"{where}: keyword {kw.arg} forwards the expression {ast.unparse(kw.value)!r} (only plain names are understood)")
             fwd.append([kw.arg, kw.value.id])
-        out.append({"name": f.name, "line": f.lineno, "deprecated": deprecated, "params": params, "const": c.attr,
+        out.append({"name": f.name, "line": f.lineno, "deprecated": deprecated, "deprecated_msg": dep_msg, "params": params, "const": c.attr,
                     "forwards": fwd, "guards": guards})
     return out
 
